@@ -597,7 +597,7 @@ func genModelFontOpt(rng *rand.Rand, nested bool) *modelFont {
 }
 
 func runC06(r *rt.Runner) {
-	n := r.N(20000, 200000)
+	n := r.N(40000, 400000)
 	for k := 0; k < n; k++ {
 		r.Case("model-font", func(c *rt.C) {
 			rng := c.Rand()
